@@ -533,7 +533,7 @@ SUBCHECKS = [
                              'under both overflow modes; bfloat: all 65536 codes in thorough, 38 blocks of 256 in quick'),
     Sub('C11.encode_all_half', run_encode_half, enum=enum_encode,
         enum_exhaustive_note='all 65536 half-precision bit patterns x 7 formats x mxfp_overflow in {saturate, overflow} (both tiers)'),
-    Sub('C11.encode_float64_path', run_f64, strategy=f64_case, examples={'quick': 10000, 'thorough': 200000}),
-    Sub('C11.e8m0_mxint_bfloat', run_other, strategy=other_case, examples={'quick': 8000, 'thorough': 100000}),
-    Sub('C11.scaled', run_scaled, strategy=scaled_case, examples={'quick': 6000, 'thorough': 80000}),
+    Sub('C11.encode_float64_path', run_f64, strategy=f64_case, examples={'quick': 10000, 'thorough': 200000}, ambient=('bytealigned',)),
+    Sub('C11.e8m0_mxint_bfloat', run_other, strategy=other_case, examples={'quick': 8000, 'thorough': 100000}, ambient=('bytealigned',)),
+    Sub('C11.scaled', run_scaled, strategy=scaled_case, examples={'quick': 6000, 'thorough': 80000}, ambient=('bytealigned',)),
 ]
